@@ -321,7 +321,42 @@ pub fn gen_case(seed: u64, idx: u64) -> Case {
     };
     // (rarely a range longer than a pool's natural chunk sizes, of a length that no chunking
     // divides evenly: seeded change C16-r8a-1 drops the tail of 65- and 129-seed ranges)
-    let tries = *g.pick(&[0u64, 1, 1, 2, 3, 5, 8, 12, 24, 24, 65, 129]);
+    let mut tries = *g.pick(&[0u64, 1, 1, 2, 3, 5, 8, 12, 24, 24, 65, 129]);
+    let mut mn = mn;
+    let mut start = start;
+    match g.below(24) {
+        0 => {
+            // a long range whose only successful seed is its last (whatever splits the range into
+            // chunks must not lose the tail: seeded change C16-r8a-1): look for a success that
+            // follows at least t - 1 failures
+            let t = *g.pick(&[65u64, 67, 129, 130]);
+            let mut run = 0u64;
+            for s in 0..1500u64 {
+                if mn.run(s).is_ok() {
+                    if run >= t - 1 {
+                        start = s + 1 - t;
+                        tries = t;
+                        break;
+                    }
+                    run = 0;
+                } else {
+                    run += 1;
+                }
+            }
+        }
+        1 | 2 => {
+            // exactly tight weights under the random policy: success needs backtracking, often a
+            // lot of it; short ranges (a search that first tries with a reduced budget must fall
+            // back to the full one: seeded change C16-r8a-3)
+            let nrows = 4 + g.below(5) as usize;
+            let wc = 2 + g.below(2) as usize;
+            let wr = wc * 2;
+            mn = MnConfig { nrows, ncols: nrows * wr / wc, wr, wc, backtrack_cols: 1 + g.below(3) as usize, backtrack_trials: *g.pick(&[50usize, 200, 1000]), min_girth: None, girth_trials: 0, fill_policy: FillPolicy::Random };
+            tries = *g.pick(&[1u64, 1, 2, 3, 5]);
+            start = g.below(200);
+        }
+        _ => {}
+    }
     // per-schedule part
     let mut s = Stream::new(keyed(seed, &[idx, 99]), "c16-schedule");
     let pool = *s.pick(&[1usize, 2, 2, 3, 4, 4, 6, 8]);
@@ -766,7 +801,14 @@ pub fn main(opts: &Opts) -> ! {
     });
     let mut a = acc.into_inner().unwrap();
     if let Some(m) = &a.mismatch {
-        harness_error(&format!("determinism re-check failed: {}", m));
+        // two executions of one case differ. On the unchanged tree that can only be the harness
+        // (selftest proves it deterministic there): exit 2. But code under test that keeps state
+        // across runs (a process-wide memo, seeded change C16-r8b-1) has the same symptom, and
+        // then the property violations found in this run are what must be reported.
+        if a.failures.is_empty() && a.peg_failures.is_empty() && a.mn_failures.is_empty() {
+            harness_error(&format!("determinism re-check failed: {}", m));
+        }
+        eprintln!("note: the determinism re-check also failed ({}): with violations at hand this is taken as their consequence — state in the code under test that outlives a run — and not as a defect of the harness", m);
     }
     let multi = a.winners.values().filter(|w| w.len() > 1).count() as u64;
     a.counters.add("distinct seeds returned for one configuration", multi);
